@@ -289,9 +289,12 @@ theorem foldl_removeObj_keep (l : List Addr) (s : St) (a' : Addr) (h : a' ∉ l)
       exact upd_other _ _ h.1
     · rfl
 
-theorem remove_from (s : St) (ps : List Path) (av f : Bool) : CacheFrom s (s.remove ps av f).1 := by
+theorem remove_from (s : St) (ps : List Path) (sel : RemoveSel) (f : Bool) : CacheFrom s (s.remove ps sel f).1 := by
   intro a o h
-  exact Or.inl (foldl_removeObj_sub _ _ a o h)
+  unfold St.remove at h
+  split at h
+  · exact Or.inl h
+  · exact Or.inl (foldl_removeObj_sub _ _ a o h)
 
 theorem rematerialise_cache (s : St) (ts : List Ent) : (s.rematerialise ts).1.cache = s.cache := by
   unfold St.rematerialise
@@ -308,19 +311,17 @@ theorem foldl_removeObj_recs (l : List Addr) (s : St) : (l.foldl St.removeObj s)
 theorem untrack_from (s : St) (ps : List Path) : CacheFrom s (s.untrack ps).1 := by
   unfold St.untrack
   simp only
-  split
-  · exact CacheFrom.refl s
-  · have h1 := rematerialise_cache s (s.targetEnts ps)
-    generalize s.rematerialise (s.targetEnts ps) = res at h1
-    obtain ⟨s1, o⟩ := res
-    cases o <;> simp only at h1 ⊢
-    · intro a ob h
-      have := foldl_removeObj_sub _ _ a ob h
-      exact Or.inl (h1 ▸ this)
-    · intro a ob h
-      have := foldl_removeObj_sub _ _ a ob h
-      exact Or.inl (h1 ▸ this)
-    · exact cacheFrom_of_eq h1
+  have h1 := rematerialise_cache s (s.targetEnts ps)
+  generalize s.rematerialise (s.targetEnts ps) = res at h1
+  obtain ⟨s1, o⟩ := res
+  cases o <;> simp only at h1 ⊢
+  · intro a ob h
+    have := foldl_removeObj_sub _ _ a ob h
+    exact Or.inl (h1 ▸ this)
+  · intro a ob h
+    have := foldl_removeObj_sub _ _ a ob h
+    exact Or.inl (h1 ▸ this)
+  · exact cacheFrom_of_eq h1
 
 /-! ## untrack --restore-versions -/
 
@@ -400,17 +401,13 @@ theorem untrackRestore_ok (s : St) (ps : List Path) (bl : List (Path × Addr))
   unfold St.untrackRestore at hok ⊢
   unfold St.untrack
   simp only at hok ⊢
-  split
-  · rfl
-  · rename_i hany
-    simp only [hany, Bool.false_eq_true, ↓reduceIte] at hok
-    generalize s.rematerialise (s.targetEnts ps) = res at hok ⊢
-    obtain ⟨s1, o⟩ := res
-    cases o <;> simp only at hok ⊢
-    all_goals first
-      | done
-      | (generalize s1.restoreCopies bl _ = rc at hok ⊢; obtain ⟨w, b⟩ := rc; cases b <;> simp_all; done)
-      | cases hok
+  generalize s.rematerialise (s.targetEnts ps) = res at hok ⊢
+  obtain ⟨s1, o⟩ := res
+  cases o <;> simp only at hok ⊢
+  all_goals first
+    | done
+    | (generalize s1.restoreCopies bl _ = rc at hok ⊢; obtain ⟨w, b⟩ := rc; cases b <;> simp_all; done)
+    | cases hok
 
 /-- shape of a successful run: the copies were made from a state with the cache of the start state,
     all of them succeeded, and then exactly the deletable versions were removed -/
@@ -423,41 +420,32 @@ theorem untrackRestore_ok_shape (s : St) (ps : List Path) (bl : List (Path × Ad
         (s.untrackDeletable (s.targetEnts ps)).foldl St.removeObj (s1.dropRecs (s.targetEnts ps)) := by
   unfold St.untrackRestore at hok ⊢
   simp only at hok ⊢
-  split
-  · rename_i hany
-    simp [hany] at hok
-  · rename_i hany
-    simp only [hany, Bool.false_eq_true, ↓reduceIte] at hok
-    have h1 := rematerialise_cache s (s.targetEnts ps)
-    generalize s.rematerialise (s.targetEnts ps) = res at hok h1 ⊢
-    obtain ⟨s1, o⟩ := res
-    refine ⟨s1, h1, ?_⟩
-    cases o <;> simp only at hok ⊢
-    all_goals first
-      | done
-      | (generalize s1.restoreCopies bl _ = rc at hok ⊢; obtain ⟨w, b⟩ := rc; cases b <;> simp_all; done)
-      | cases hok
+  have h1 := rematerialise_cache s (s.targetEnts ps)
+  generalize s.rematerialise (s.targetEnts ps) = res at hok h1 ⊢
+  obtain ⟨s1, o⟩ := res
+  refine ⟨s1, h1, ?_⟩
+  cases o <;> simp only at hok ⊢
+  all_goals first
+    | done
+    | (generalize s1.restoreCopies bl _ = rc at hok ⊢; obtain ⟨w, b⟩ := rc; cases b <;> simp_all; done)
+    | cases hok
 
 /-- when it does not succeed the cache is left as it was -/
 theorem untrackRestore_fail_cache (s : St) (ps : List Path) (bl : List (Path × Addr))
     (hf : (s.untrackRestore ps bl).1.2 ≠ .ok) : (s.untrackRestore ps bl).1.1.cache = s.cache := by
   unfold St.untrackRestore at hf ⊢
   simp only at hf ⊢
-  split
-  · rfl
-  · rename_i hany
-    simp only [hany, Bool.false_eq_true, ↓reduceIte] at hf
-    have h1 := rematerialise_cache s (s.targetEnts ps)
-    generalize s.rematerialise (s.targetEnts ps) = res at hf h1 ⊢
-    obtain ⟨s1, o⟩ := res
-    cases o <;> simp only at hf h1 ⊢
-    · generalize s1.restoreCopies bl _ = rc at hf ⊢
-      obtain ⟨w, b⟩ := rc
-      cases b <;> simp_all
-    · generalize s1.restoreCopies bl _ = rc at hf ⊢
-      obtain ⟨w, b⟩ := rc
-      cases b <;> simp_all
-    · exact h1
+  have h1 := rematerialise_cache s (s.targetEnts ps)
+  generalize s.rematerialise (s.targetEnts ps) = res at hf h1 ⊢
+  obtain ⟨s1, o⟩ := res
+  cases o <;> simp only at hf h1 ⊢
+  · generalize s1.restoreCopies bl _ = rc at hf ⊢
+    obtain ⟨w, b⟩ := rc
+    cases b <;> simp_all
+  · generalize s1.restoreCopies bl _ = rc at hf ⊢
+    obtain ⟨w, b⟩ := rc
+    cases b <;> simp_all
+  · exact h1
 
 theorem untrackRestore_from (s : St) (ps : List Path) (bl : List (Path × Addr)) :
     CacheFrom s (s.untrackRestore ps bl).1.1 := by
